@@ -388,3 +388,120 @@ func ruleQueueOnce(c *eng.Ctx) {
 	c.Check(ok, rule, "composites:each-block-merged-once", pos, "queueing or applying is guarded by a set of cids",
 		"neither the queueing sites of loadComposites nor the applying loop of mergeComposites test a set of already queued/merged cids: a commit below a diamond in the incoming DAG is queued once per branch and merged as many times — its counter increments are doubled")
 }
+
+// ruleLinkedDocCommitOnce: a document commit is applied after a walk against the heads of its own
+// document (loadComposites), which is what makes redelivery harmless. The apply recursion over a
+// block's links may therefore recurse into field blocks, but a document composite that is linked
+// from a *collection* commit (branchable collections) also arrives on its own and must be merged
+// through the document's heads: in processBlock's loop over Links, with "the block is a collection
+// commit and the linked block is a composite" assumed, the plain recursive processBlock call is
+// unreachable and a call that reaches getHeadsAsMergeTarget and loadComposites is made.
+func ruleLinkedDocCommitOnce(c *eng.Ctx) {
+	const rule = "LINKED-DOC-COMMIT-ONCE"
+	fi := c.Anchor(rule, "internal/db.(*mergeProcessor).processBlock")
+	if fi == nil {
+		return
+	}
+	c.P.BuildCG()
+	info := fi.Pkg.TypesInfo
+	var loop *ast.RangeStmt
+	ast.Inspect(fi.Decl.Body, func(m ast.Node) bool {
+		if rs, ok := m.(*ast.RangeStmt); ok {
+			x := ast.Unparen(rs.X)
+			// links := dagBlock.Links; for … range links
+			if o := eng.ObjOf(info, x); o != nil {
+				ast.Inspect(fi.Decl.Body, func(y ast.Node) bool {
+					if as, ok := y.(*ast.AssignStmt); ok && len(as.Lhs) == 1 && len(as.Rhs) == 1 && eng.ObjOf(info, as.Lhs[0]) == o {
+						x = ast.Unparen(as.Rhs[0])
+					}
+					return true
+				})
+			}
+			if se, ok := x.(*ast.SelectorExpr); ok && se.Sel.Name == "Links" {
+				loop = rs
+			}
+		}
+		return true
+	})
+	if loop == nil || len(loop.Body.List) == 0 {
+		c.Unknown(rule, "processBlock:links-loop", fi.Decl.Pos(), "anchor-unresolved: loop over the block's links")
+		return
+	}
+	flow := eng.NewFlow(info, fi.Decl.Body)
+	start, ok := flow.PointOf(firstNodeOf(loop.Body.List[0]))
+	if !ok {
+		c.Unknown(rule, "processBlock:links-loop-entry", loop.Pos(), "loop entry not in the flow graph")
+		return
+	}
+	reachesWalk := func(call *ast.CallExpr) bool {
+		g := c.P.FuncOfObj(eng.Callee(info, call))
+		if g == nil || g == fi {
+			return false
+		}
+		fn := c.P.SSAFunc(g)
+		if fn == nil {
+			return false
+		}
+		heads, walk := false, false
+		for f := range c.P.Cone(fn) {
+			switch f.Name() {
+			case "getHeadsAsMergeTarget":
+				heads = true
+			case "loadComposites":
+				walk = true
+			}
+		}
+		return heads && walk
+	}
+	plain, viaHeads := false, false
+	flow.Forward(start, true, eng.Walk{
+		Visit: func(p eng.Point, nd ast.Node) eng.Action {
+			if nd.Pos() < loop.Body.Pos() || nd.End() > loop.Body.End() {
+				return eng.Cut // left the iteration
+			}
+			ast.Inspect(nd, func(x ast.Node) bool {
+				if call, ok := x.(*ast.CallExpr); ok {
+					if eng.Callee(info, call) == fi.Obj {
+						plain = true
+					} else if reachesWalk(call) {
+						viaHeads = true
+					}
+				}
+				return true
+			})
+			return eng.Continue
+		},
+		Edge: func(cond ast.Expr, taken bool) bool {
+			t := eng.EvalBool(info, cond, func(e ast.Expr) eng.Tri {
+				if call, ok := ast.Unparen(e).(*ast.CallExpr); ok {
+					if se, ok := call.Fun.(*ast.SelectorExpr); ok && (se.Sel.Name == "IsCollection" || se.Sel.Name == "IsComposite") {
+						return eng.True
+					}
+				}
+				if t := happyAtom(info, e); t != eng.Unknown {
+					return t
+				}
+				return eng.Unknown
+			})
+			switch t {
+			case eng.True:
+				return taken
+			case eng.False:
+				return !taken
+			}
+			return true
+		},
+	})
+	c.Check(viaHeads && !plain, rule, "processBlock:collection-commit→document-commit:merged-through-document-heads", loop.Pos(), "a document commit linked from a collection commit is merged against its document's heads",
+		"a document commit that is linked from a collection commit is applied by plain recursion (not through a walk against the document's heads): with a branchable collection the commit also arrives on its own, so it is applied twice and its counter increments are doubled")
+}
+
+func firstNodeOf(st ast.Stmt) ast.Node {
+	if is, ok := st.(*ast.IfStmt); ok {
+		if is.Init != nil {
+			return is.Init
+		}
+		return is.Cond
+	}
+	return st
+}
